@@ -224,4 +224,33 @@ def c16(tier, seed, replay_path=None):
     return v
 
 
-CHECKS = {"C09": c09, "C10": c10, "C12": c12, "C16": c16}
+def c20(tier, seed, replay_path=None):
+    binary = fc.build()
+    d = c.sub("gen")
+    cfg = os.path.join(d, "config.cfg")
+    c.write_cfg(cfg, "CSpec", {}, ["Precedence", "InvalidDbRefused", "EmitInv"])
+    raw = os.path.join(d, "C20.out")
+    r = c.run_tlc("MC_Config", cfg, workers=1, out_file=raw)
+    if not r.ok:
+        c.tlc_must_pass(r, "MC_Config")
+    tbl = os.path.join(d, "C20.table.json")
+    if c.unquote_lines(raw, tbl, limit=1) != 1:
+        raise c.Infra("config tables were not emitted")
+    t = json.load(open(tbl))
+    dbd = c.sub("c20db")
+    out = os.path.join(d, "C20.res")
+    p = c.run_harness(binary, {"VERIF_OP": "config", "VERIF_IN": tbl, "VERIF_OUT": out, "VERIF_DB": os.path.join(dbd, "x.db"), "VERIF_SEED": seed}, cwd=dbd)
+    if p.returncode != 0 or not os.path.exists(out):
+        raise c.Infra("config harness failed: %s %s" % (p.stdout[-1500:], p.stderr[-1500:]))
+    res = json.load(open(out))
+    agg = {"behaviours": res["behaviours"], "steps": res["steps"], "queries": res["queries"], "mismatches": res.get("mismatches") or [],
+           "samples": res.get("samples") or [], "crashed": [], "stats": res.get("stats") or {}}
+    if res["behaviours"] < 25 or len(t["validation"]) < 100:
+        raise c.Infra("vacuous run: %d keys, %d validation rows" % (res["behaviours"], len(t["validation"])))
+    return simple_verdict("C20", agg, [r], {"leaf_keys": res["behaviours"], "precedence_rows": len(t["precedence"]), "validation_rows": len(t["validation"]),
+                          "exhaustive": True,
+                          "rule": "every leaf key of AppConfig (reflection over mapstructure tags) x every subset of {env, file} providing a value of the key's type "
+                                  "(table emitted by TLC from Config.tla), all other keys checked to keep their defaults; the full database-section validation table through file and environment"})
+
+
+CHECKS = {"C09": c09, "C10": c10, "C12": c12, "C16": c16, "C20": c20}
